@@ -193,7 +193,7 @@ def catalogue(T):
         out.append(("BoxCox1nu(nu=0.2,lam=%g)" % lam, mk("BoxCox1nu", {"nu": 0.2}, {"lam": lam}), geo(0.1, 50, 16), []))
     for nu in (-1.0, 0.0, 0.5):
         for scale in (0.05, 1.0, 3.0):
-            for lam in (-1.0, -0.3, 0.0, 1e-9, 5e-9, 2e-8, -2e-8, 0.5, 1.0, 2.0, 2.0 + 1e-9, 2.0 - 1e-5, 2.0 + 1.5e-5, 2.0 - 1e-7, 2.7, 3.0):
+            for lam in (-1.0, -0.3, 0.0, 1e-9, 5e-9, 2e-8, -2e-8, 0.1, 0.25, 0.5, 1.0, 2.0, 2.0 + 1e-9, 2.0 - 1e-5, 2.0 + 1.5e-5, 2.0 - 1e-7, 2.7, 3.0):
                 w = np.concatenate([-geo(1e-2, 15, 10)[::-1], geo(1e-2, 15, 10)])
                 xs = (w - nu) / scale
                 out.append(("YeoJohnson(nu=%g,scale=%g,lam=%g)" % (nu, scale, lam),
